@@ -84,5 +84,9 @@ Section Mon.
     image_agrees (all_objs sh) (m_img m) (m_reason m) fin = true ->
     mstep sh m (EvRelease fin) =
     Some {| m_img := m_img m; m_reason := m_reason m; m_acts := m_acts m; m_rel := Some fin |}.
-  Proof. intros H1 H2. unfold mstep, mstep_c. now rewrite H1, H2. Qed.
+  Proof.
+    intros H1 H2. unfold mstep, mstep_c. rewrite H1. cbn [negb].
+    unfold image_agrees in *. apply andb_true_iff in H2 as [R1 R2].
+    rewrite R2, R1, (proj2 (reason_eqb_eq _ _) eq_refl). reflexivity.
+  Qed.
 End Mon.
